@@ -8,7 +8,23 @@ built from the LIBRARY's own get_hash/get_depth of t. For every ancestor E of t 
 j + maxm(E) < d  (maxm(E) = max over paths E->t of the number of Merkle cells on the path, E included)
 get_hash(j) and get_depth(j) of E are unchanged.  (A Merkle cell's own hash legitimately changes when the pruning
 level equals its Merkle depth: it commits to the child's level-0 hash in its data, which is what stays fixed.)
-Not asserted: rejection of spec-invalid exotic cells.
+Histories / forms of use added to both oracles (a cell is a value - how the caller got hold of it does not matter):
+ * route 'reused' (model) / mode 'reuse-*' (metamorphic): the cell is ended from a Builder that HAS BEEN ENDED BEFORE with other
+   contents of the same type, bit count and reference count (one bit flipped, one child replaced), then corrected - in place
+   through the live `builder.bits` / `builder.refs`, by slice assignment, through the setters, by pop + store_ref, by storing
+   more, by changing `builder.type_` - and ended again (end_cell / to_cell). In the metamorphic check this is literally the
+   operation of the statement: the builders of X are kept, the child is replaced by its pruned branch in them, they are ended again;
+   the result must equal the freshly built X' in every observable, and the cells ended first must still hold their old children.
+ * generic Python copies: copy.copy / copy.deepcopy / pickle (protocols 0, 2, highest) of a cell, of a list holding it, of a
+   builder / slice holding it must report the same mask / hashes / depths on the whole copied subtree, and an ordinary cell and a
+   Merkle proof BUILT ON the copy must have the specified hashes (copies that raise are not judged: not promised by the statement).
+ * depth limit: grid 'depth-limit-x-merkle' - pruned branches whose stored depth at ONE significant level (or all) is 1021..1023
+   and small elsewhere, real chains of 1004 / 1023 cells with the bottom pruned, under 19 ancestor shapes of ordinary / Merkle
+   proof / Merkle update cells; every case in which the reference says all depths at all levels are <= 1023 must construct and
+   parse (the virtual level-0 depth of a Merkle cell's child does not count for the Merkle cell). The metamorphic generator also
+   draws stored depths 1016 / 1021 / 1022 (cases the reference calls too deep are skipped).
+Not asserted: rejection of spec-invalid exotic cells; depth 1024 (legal in the C++ node, refused by this library by design);
+that copy / pickle succeed.
 """
 from hypothesis import strategies as st
 from harness.core import Sub, Fail, call, exc_sig
@@ -16,7 +32,11 @@ from harness.gen import dag
 from harness.ref import refcell as rc, refboc
 
 RULE = ('case = exotic DAG spec (ordinary / derived pruned / raw pruned masks 1..7 / library / Merkle proof / Merkle update '
-        'nodes, bottom-up with sharing) + route; metamorphic cases add a target node and a pruning level. '
+        'nodes, bottom-up with sharing) + route (fresh Builder / Cell(TvmBitarray) / Cell(bitarray) / Builder ended before with '
+        'other contents and corrected in one of 7 ways, chosen per node by hist); every case also takes generic Python copies '
+        '(copy, deepcopy, pickle) of two nodes and builds parents on them; metamorphic cases add a target node, a pruning level '
+        'and a mode (fresh builders / the builders of X edited and ended again); depth-limit grid: stored depths 1021..1023 at one '
+        'level x 19 ancestor shapes, kept when the reference says every depth <= 1023. '
         'non-trivial = contains a cell with mask >= 2 or a mask with a gap (2,4,5,6) or Merkle nesting >= 2; '
         'distinct = distinct case')
 ASSUMPTIONS = ['harness/ref/refcell.py transcription of DataCell.cpp level/hash rules (validated on the pinned main-net block; '
@@ -42,12 +62,162 @@ def cmp_node(r, l, what):
     return None
 
 
+HISTS = ('inplace', 'inplace-slice', 'setter', 'grow', 'pop-push', 'retype', 'twice')
+
+
+def _flip(bits, exotic, sel):
+    """bits with one bit flipped (an exotic cell keeps its type and mask bytes) and the position, or (bits, None)"""
+    lo = 16 if exotic and len(bits) > 16 else 0
+    if len(bits) <= lo:
+        return bits, None
+    p = (lo, (lo + len(bits)) // 2, len(bits) - 1)[sel % 3]
+    return bits[:p] + ('1' if bits[p] == '0' else '0') + bits[p + 1:], p
+
+
+def lib_reused(cells, h):
+    """list of RCell (bottom-up) -> library cells, each ended from a Builder that has a HISTORY: it was filled and ended
+    before (other contents of the same type / number of bits / number of references, or a part of the contents, or another
+    type), then brought to the contents of the reference cell in the way HISTS[(h + k) % 7] names, and ended again.
+    What a builder was ended with before is irrelevant for what it is ended with now."""
+    from pytoniq_core.boc.builder import Builder
+    from pytoniq_core.boc.tvm_bitarray import TvmBitarray
+    from bitarray import bitarray
+    out, idx, hashes = [], {}, []
+    for k, c in enumerate(cells):
+        refs = [out[idx[id(r)]] for r in c.refs]
+        t, bits = c.type, c.bits
+        hist = HISTS[(h + k) % len(HISTS)]
+        if hist == 'retype' and t == -1:
+            hist = 'inplace'
+        dbits, p = _flip(bits, t != -1, h + k)
+        drefs, di = list(refs), None
+        if refs:
+            di = len(refs) - 1 if hist == 'pop-push' else (h + k) % len(refs)
+            want = c.refs[di].repr_hash()
+            other = [j for j in range(len(out)) if hashes[j] != want]
+            if other:
+                drefs[di] = out[other[(h + k) % len(other)]]
+            else:
+                di = None
+        b = Builder(type_=t)
+        if hist == 'grow':
+            cut, nr = len(bits) // 2, len(refs) // 2
+            b.store_bits(bits[:cut])
+            for r in refs[:nr]:
+                b.store_ref(r)
+            call(b.end_cell)
+            b.store_bits(bits[cut:])
+            for r in refs[nr:]:
+                b.store_ref(r)
+            lc = b.end_cell()
+        elif hist == 'twice':
+            b.store_bits(bits)
+            for r in refs:
+                b.store_ref(r)
+            call(b.to_cell)
+            lc = b.end_cell()
+        elif hist == 'retype':
+            b = Builder()
+            b.store_bits(bits)
+            for r in refs:
+                b.store_ref(r)
+            call(b.end_cell)                     # the ordinary cell with these bits and children
+            b.type_ = t
+            lc = b.end_cell()
+        else:
+            b.store_bits(dbits)
+            for r in drefs:
+                b.store_ref(r)
+            call(b.end_cell)                     # the decoy (whether it is a valid cell does not matter)
+            if hist == 'inplace':
+                if p is not None:
+                    b.bits[p] = int(bits[p])
+                if di is not None:
+                    b.refs[di] = refs[di]
+                lc = b.end_cell()
+            elif hist == 'inplace-slice':
+                if p is not None:
+                    lo = p - p % 16
+                    b.bits[lo:lo + 16] = bitarray(bits[lo:lo + 16])
+                b.refs[:] = refs
+                lc = b.to_cell()
+            elif hist == 'setter':
+                b.bits = TvmBitarray(1023, bits)
+                b.refs = list(refs)
+                lc = b.end_cell()
+            else:  # pop-push: the last child is taken out and the right one stored; the bits are corrected in place
+                if p is not None:
+                    b.bits[p] = int(bits[p])
+                if refs:
+                    b.refs.pop()
+                    b.store_ref(refs[-1])
+                lc = b.end_cell()
+        idx[id(c)] = len(out)
+        out.append(lc)
+        hashes.append(c.repr_hash())
+    return out
+
+
+def _copies(l, sel, full=True):
+    """generic Python ways to get 'the same cell again': (name, thunk). full: copy.copy, copy.deepcopy, a deep copy of one of three
+    containers holding the cell (list / builder / slice) and one pickle protocol (0, 2, default, highest), rotating with sel;
+    otherwise one deep copy and one pickle"""
+    import copy
+    import pickle
+    from pytoniq_core.boc.builder import Builder
+    p = (0, 2, pickle.DEFAULT_PROTOCOL, pickle.HIGHEST_PROTOCOL)[sel % 4]
+    held = [('deepcopy-of-list', lambda: copy.deepcopy([l, l])[1]),
+            ('deepcopy-of-builder', lambda: copy.deepcopy(Builder().store_ref(l)).end_cell().refs[0]),
+            ('deepcopy-of-slice', lambda: copy.deepcopy(Builder().store_ref(l).end_cell().begin_parse()).load_ref())][sel % 3]
+    pick = (f'pickle-proto{p}', lambda: pickle.loads(pickle.dumps(l, protocol=p)))
+    if not full:
+        return [('copy.deepcopy', lambda: copy.deepcopy(l)) if sel % 2 else held, pick]
+    return [('copy.copy', lambda: copy.copy(l)), ('copy.deepcopy', lambda: copy.deepcopy(l)), held, pick]
+
+
+def check_copies(r, l, sel, what, full=True):
+    """a copy of a cell made by copy / deepcopy / pickle is that cell: whole subtree reports the specified values, and
+    cells built on top of the copy hash what the specification says (they read the copy's per-level hashes AND depths)"""
+    from pytoniq_core.boc.builder import Builder
+    if max(r.D(i) for i in range(4)) > 60:
+        return None                               # deepcopy / pickle recurse per level: Python's limit, not the library's
+    par = rc.RCell('1', [r], False)
+    mpr = rc.merkle_proof(r)
+    for name, thunk in _copies(l, sel, full):
+        ok, d = call(thunk)
+        if not ok:
+            continue                              # not promised by the statement
+        stack, seen = [(r, d)], set()
+        while stack:
+            a, b = stack.pop()
+            if id(a) in seen:
+                continue
+            seen.add(id(a))
+            if getattr(b, 'type_', None) != a.type or len(b.refs) != len(a.refs) or b.bits.to01() != a.bits:
+                return Fail(f'copied/structure-differs/{name.split("-proto")[0]}', f'{what}: {name}')
+            f = cmp_node(a, b, f'{name} of {what}')
+            if f:
+                return Fail('copied/' + f.signature + '/' + name.split('-proto')[0], f.detail)
+            stack.extend(zip(a.refs, b.refs))
+        for pr, mk in ((par, lambda: Builder().store_bits('1').store_ref(d).end_cell()),
+                       (mpr, lambda: Builder(type_=3).store_bits(mpr.bits).store_ref(d).end_cell())):
+            if rc.spec_invalid(pr) is not None:
+                continue
+            ok, lp = call(mk)
+            if not ok:
+                return Fail(f'built-on-copy/construction-raises/type{pr.type}', f'{what}: {name}: {exc_sig(lp)}: {lp!r}')
+            f = cmp_node(pr, lp, f'type {pr.type} cell built on {name} of {what}')
+            if f:
+                return Fail('built-on-copy/' + f.signature + '/' + name.split('-proto')[0], f.detail)
+    return None
+
+
 def check_model(case):
     from pytoniq_core.boc.cell import Cell
     cells = dag.build_ref(case['spec'])
     route = case.get('route', 'builder')
     try:
-        lib = dag.lib_from_ref(cells, route)
+        lib = lib_reused(cells, case.get('hist', 0)) if route == 'reused' else dag.lib_from_ref(cells, route)
     except Exception as e:
         masks = sorted({c.mask() for c in cells})
         return Fail(f'construction-raises/{type(e).__name__}:{str(e)[:40]}', f'{exc_sig(e)} route={route} masks present={masks}')
@@ -88,6 +258,11 @@ def check_model(case):
             f = cmp_node(r, d, f'{name} of node {k}')
             if f:
                 return Fail('derived/' + f.signature + '/' + name, f.detail)
+    # ... and a copy made by Python's own protocols (copy, deepcopy, pickle - caches, multiprocessing) is that cell
+    for k in sorted({n - 1, n // 2}):
+        f = check_copies(cells[k], lib[k], len(case['spec']) + case.get('hist', 0) + k, f'node {k} ({route})', full=k == n - 1)
+        if f:
+            return f
     # the mask a cell REPORTS is also the one its serialisation carries (bits 5..7 of d1): the library's bag of the root is read
     # by the independent strict decoder, which recomputes every cell's mask from its kind and children
     ok, own = call(lib[-1].to_boc)
@@ -166,45 +341,104 @@ def enum_twin_bags(tier):
 
 # -- metamorphic ------------------------------------------------------------------------------------------
 
-def _lib_build(spec, replace=None):
-    """build library cells for spec (kinds o / P / l / mp / mu only) using ONLY library facilities;
-    replace = (t, d): node t is replaced by its pruned branch of level d built from the library's own hashes"""
-    from pytoniq_core.boc.builder import Builder
+def _content(node, out):
+    """(cell type, data as a bit string, list of built children) of a spec node (kinds o / P / l / mp / mu), the Merkle data
+    taken from the LIBRARY's own get_hash / get_depth of the children"""
     import hashlib
+    kind = node['k']
+    if kind == 'o':
+        return -1, dag.node_bits(node), [out[i] for i in node['r']]
+    if kind == 'P':
+        n = bin(node['m']).count('1')
+        seed = bytes.fromhex(node['s'])
+        data = bytes([1, node['m']]) + b''.join(hashlib.sha256(seed + bytes([j])).digest() for j in range(n)) + \
+            b''.join((node['d'][j % len(node['d'])]).to_bytes(2, 'big') for j in range(n))
+        return 1, rc.bytes_to_bits(data), []
+    if kind == 'l':
+        return 2, rc.bytes_to_bits(bytes([2]) + hashlib.sha256(bytes.fromhex(node['s'])).digest()), []
+    if kind == 'mp':
+        ch = out[node['r']]
+        return 3, rc.bytes_to_bits(bytes([3]) + ch.get_hash(0) + ch.get_depth(0).to_bytes(2, 'big')), [ch]
+    if kind == 'mu':
+        a, b2 = out[node['r'][0]], out[node['r'][1]]
+        return 4, rc.bytes_to_bits(bytes([4]) + a.get_hash(0) + b2.get_hash(0) + a.get_depth(0).to_bytes(2, 'big') +
+                                   b2.get_depth(0).to_bytes(2, 'big')), [a, b2]
+    raise ValueError(kind)
+
+
+def _pruned_of(c, d):
+    """the pruned branch of level d standing for library cell c, from the library's own hashes and depths"""
+    from pytoniq_core.boc.builder import Builder
+    m = c.level_mask.mask
+    sig = [0] + [i + 1 for i in range(3) if (m >> i) & 1]
+    data = bytes([1, m | (1 << (d - 1))]) + b''.join(c.get_hash(i) for i in sig) + \
+        b''.join(c.get_depth(i).to_bytes(2, 'big') for i in sig)
+    return Builder(type_=1).store_bytes(data).end_cell()
+
+
+def _lib_build(spec, replace=None, keep=None):
+    """build library cells for spec (kinds o / P / l / mp / mu only) using ONLY library facilities;
+    replace = (t, d): node t is replaced by its pruned branch of level d built from the library's own hashes;
+    keep: a list that receives the Builder each node was ended from"""
+    from pytoniq_core.boc.builder import Builder
     out = []
     for k, node in enumerate(spec):
-        kind = node['k']
-        if kind == 'o':
-            b = Builder().store_bits(dag.node_bits(node))
-            for i in node['r']:
-                b.store_ref(out[i])
-            c = b.end_cell()
-        elif kind == 'P':
-            n = bin(node['m']).count('1')
-            seed = bytes.fromhex(node['s'])
-            data = bytes([1, node['m']]) + b''.join(hashlib.sha256(seed + bytes([j])).digest() for j in range(n)) + \
-                b''.join((node['d'][j % len(node['d'])]).to_bytes(2, 'big') for j in range(n))
-            c = Builder(type_=1).store_bytes(data).end_cell()
-        elif kind == 'l':
-            c = Builder(type_=2).store_bytes(bytes([2]) + hashlib.sha256(bytes.fromhex(node['s'])).digest()).end_cell()
-        elif kind == 'mp':
-            ch = out[node['r']]
-            c = Builder(type_=3).store_bytes(bytes([3]) + ch.get_hash(0) + ch.get_depth(0).to_bytes(2, 'big')).store_ref(ch).end_cell()
-        elif kind == 'mu':
-            a, b2 = out[node['r'][0]], out[node['r'][1]]
-            c = Builder(type_=4).store_bytes(bytes([4]) + a.get_hash(0) + b2.get_hash(0) + a.get_depth(0).to_bytes(2, 'big') +
-                                             b2.get_depth(0).to_bytes(2, 'big')).store_ref(a).store_ref(b2).end_cell()
+        t, bits, ch = _content(node, out)
+        b = Builder(type_=t)
+        if t == -1:
+            b.store_bits(bits)
         else:
-            raise ValueError(kind)
+            b.store_bytes(rc.bits_to_padded_bytes(bits))
+        for r in ch:
+            b.store_ref(r)
+        c = b.end_cell()
+        if keep is not None:
+            keep.append(b)
         if replace is not None and k == replace[0]:
-            t, d = replace
-            m = c.level_mask.mask
-            sig = [0] + [i + 1 for i in range(3) if (m >> i) & 1]
-            data = bytes([1, m | (1 << (d - 1))]) + b''.join(c.get_hash(i) for i in sig) + \
-                b''.join(c.get_depth(i).to_bytes(2, 'big') for i in sig)
-            c = Builder(type_=1).store_bytes(data).end_cell()
+            c = _pruned_of(c, replace[1])
         out.append(c)
     return out
+
+
+def _lib_rebuild(spec, X, builders, t, d, edit):
+    """X' from the builders X was ended from: node t becomes its pruned branch of level d, and in the builder of every later node
+    the children (and the Merkle data, which name a child hash) are replaced - same type, same number of bits and references -
+    and the builder is ended again"""
+    from pytoniq_core.boc.tvm_bitarray import TvmBitarray
+    from bitarray import bitarray
+    Y = []
+    for k, node in enumerate(spec):
+        if k < t:
+            Y.append(X[k])
+            continue
+        if k == t:
+            Y.append(_pruned_of(X[t], d))
+            continue
+        typ, bits, ch = _content(node, Y)
+        b = builders[k]
+        if edit == 'reuse-inplace':
+            for i, r in enumerate(ch):
+                b.refs[i] = r
+            if typ != -1:
+                b.bits[0:len(bits)] = bitarray(bits)
+            Y.append(b.end_cell())
+        elif edit == 'reuse-slice':
+            b.refs[:] = ch
+            b.bits[:] = bitarray(bits)
+            Y.append(b.to_cell())
+        elif edit == 'reuse-setter':
+            b.refs = list(ch)
+            b.bits = TvmBitarray(1023, bits)
+            Y.append(b.end_cell())
+        else:  # reuse-pop-push
+            for _ in ch:
+                b.refs.pop()
+            for r in ch:
+                b.store_ref(r)
+            if typ != -1:
+                b.bits[0:len(bits)] = bitarray(bits)
+            Y.append(b.end_cell())
+    return Y
 
 
 def _children(node):
@@ -218,11 +452,41 @@ def _children(node):
     return []
 
 
+def _too_deep(spec):
+    """the reference says some cell of the spec has a depth above 1023 at some level (the library refuses such trees by design)"""
+    try:
+        return any(rc.spec_invalid(c) is not None for c in dag.build_ref(spec))
+    except Exception:
+        return False
+
+
+def _same_cell(a, b):
+    """None if two library cells agree in every observable of the property, else the name of the first that differs"""
+    if a.type_ != b.type_:
+        return 'type'
+    if a.level_mask.mask != b.level_mask.mask:
+        return 'mask'
+    if [r.hash for r in a.refs] != [r.hash for r in b.refs]:
+        return 'children'
+    if a.bits.to01() != b.bits.to01():
+        return 'bits'
+    for j in range(4):
+        if a.get_hash(j) != b.get_hash(j):
+            return f'get_hash'
+        if a.get_depth(j) != b.get_depth(j):
+            return f'get_depth'
+    return None if a.hash == b.hash else 'hash'
+
+
 def check_meta(case):
     spec, t = case['spec'], case['t']
+    mode = case.get('mode', 'fresh')
+    builders = [] if mode != 'fresh' else None
     try:
-        X = _lib_build(spec)
+        X = _lib_build(spec, keep=builders)
     except Exception as e:
+        if _too_deep(spec):
+            return None
         return Fail(f'construction-raises/{type(e).__name__}:{str(e)[:40]}', f'{exc_sig(e)} (building X)')
     lvl = X[t].level_mask.mask.bit_length()
     if lvl >= 3:
@@ -232,6 +496,24 @@ def check_meta(case):
         Y = _lib_build(spec, (t, d))
     except Exception as e:
         return Fail(f'construction-raises/{type(e).__name__}:{str(e)[:40]}', f'{exc_sig(e)} (building X\' with node {t} pruned at level {d})')
+    if mode != 'fresh':
+        # the statement's own operation done on the builders X was ended from: replace the child, end again
+        before = [[r.hash for r in c.refs] for c in X]
+        try:
+            Yr = _lib_rebuild(spec, X, builders, t, d, mode)
+        except Exception as e:
+            return Fail(f'builder-reuse/construction-raises/{type(e).__name__}:{str(e)[:40]}',
+                        f'{exc_sig(e)} ({mode}: node {t} replaced by its pruned branch of level {d} in the builders of X)')
+        for k in range(len(spec)):
+            w = _same_cell(Yr[k], Y[k])
+            if w:
+                return Fail(f'builder-reuse/{w}-differs-from-fresh-build/type{Y[k].type_}',
+                            f'{mode}: node {k} ended from the builder node {k} of X was ended from, after node {t} was replaced in it '
+                            f'by its pruned branch of level {d}: {w} differs from the same contents ended from a fresh builder '
+                            f'(mask {Yr[k].level_mask.mask} vs {Y[k].level_mask.mask})')
+        if before != [[r.hash for r in c.refs] for c in X]:
+            return Fail('builder-reuse/cell-ended-earlier-changed', f'{mode}: children of a cell of X changed when its builder was edited')
+        Y = Yr
     # maxm(E): -1 if E does not reach t
     maxm = [-1] * len(spec)
     maxm[t] = 0
@@ -291,7 +573,8 @@ def st_meta(draw):
             o = draw(st.integers(0, k - 1))
             spec.append({'k': 'mu', 'r': [top, o] if draw(st.booleans()) else [o, top]})
         top = k
-    return {'spec': spec, 't': t, 'x': draw(st.integers(0, 2))}
+    mode = draw(st.sampled_from(['fresh', 'fresh', 'reuse-inplace', 'reuse-inplace', 'reuse-slice', 'reuse-setter', 'reuse-pop-push']))
+    return {'spec': spec, 't': t, 'x': draw(st.integers(0, 2)), 'mode': mode}
 
 
 def _mk_node(draw, kind, k):
@@ -300,7 +583,8 @@ def _mk_node(draw, kind, k):
         return {'k': 'o', 'b': draw(dag.st_bits(64)), 'r': refs}
     if kind == 'P':
         return {'k': 'P', 'm': draw(st.integers(1, 7)), 's': '%08x' % draw(st.integers(0, 2 ** 32 - 1)),
-                'd': draw(st.lists(st.sampled_from([0, 1, 2, 255, 256, 900]), min_size=1, max_size=3))}
+                'd': draw(st.lists(st.sampled_from([0, 1, 2, 255, 256, 900, 0, 1, 2, 255, 256, 900, 1016, 1021, 1022]),
+                                   min_size=1, max_size=3))}
     if kind == 'l':
         return {'k': 'l', 's': '%08x' % draw(st.integers(0, 2 ** 32 - 1))}
     if kind == 'mp':
@@ -336,11 +620,78 @@ def enum_pruned_parents(tier):
                         spec += [{'k': 'mu', 'r': [1, 0]}, {'k': 'o', 'b': [3, 1, 0], 'r': [2, 0]}, {'k': 'mu', 'r': [3, 2]}]
                     for route in ('builder', 'tvm'):
                         yield {'spec': spec, 'route': route}
+                    yield {'spec': spec, 'route': 'reused', 'hist': m1 + 2 * m2 + 3 * dv + parent}
+
+
+DEEP_SHAPES = [('o',), ('o', 'o'), ('o', 'o', 'o'), ('mp',), ('muL',), ('muB',), ('o', 'mp'), ('o2', 'mp'), ('o', 'muR'),
+               ('o', 'muB'), ('o', 'o', 'mp'), ('o', 'mp', 'o'), ('o', 'mp', 'mp'), ('o', 'mp', 'o', 'mp'), ('o', 'muL', 'mp'),
+               ('mp', 'o', 'mp'), ('o', 'mp', 'mp', 'mp'), ('o', 'mp', 'o', 'o'), ('o', 'muB', 'o', 'muB')]
+
+
+def _grow(spec, top, sib, shape):
+    """append the ancestors named by shape above node `top` (sib = index of an unrelated small cell)"""
+    spec = list(spec)
+    for op in shape:
+        k = len(spec)
+        if op == 'o':
+            spec.append({'k': 'o', 'b': [5, 2, k], 'r': [top]})
+        elif op == 'o2':
+            spec.append({'k': 'o', 'b': [0, 0, 0], 'r': [sib, top]})
+        elif op == 'mp':
+            spec.append({'k': 'mp', 'r': top})
+        else:
+            spec.append({'k': 'mu', 'r': {'muL': [top, sib], 'muR': [sib, top], 'muB': [top, top]}[op]})
+        top = k
+    return spec
+
+
+def _max_depths(spec):
+    cells = dag.build_ref(spec)
+    return cells, [max(c.D(i) for i in range(4)) for c in cells]
+
+
+def enum_depth_limit(tier):
+    """the largest legal depth at ONE level of a subtree x ancestors that look at other levels (Merkle cells read their children one
+    level up; the level 0 depth of the child is the depth of the virtual tree and does not count for them). Kept: every case in
+    which the reference finds all depths of all cells at all levels <= 1023 - those must construct and parse."""
+    for m in range(1, 8):
+        n = bin(m).count('1')
+        for hot in list(range(n)) + (['all'] if n > 1 else []):
+            for hv in (1021, 1022, 1023):
+                d = [hv if hot in (j, 'all') else (0, 3, 7)[j] for j in range(n)]
+                base = [{'k': 'P', 'm': m, 's': '%08x' % (m * 4096 + hv), 'd': d}, {'k': 'o', 'b': [3, 1, 0], 'r': []}]
+                for si, shape in enumerate(DEEP_SHAPES):
+                    spec = _grow(base, 0, 1, shape)
+                    cells, _ = _max_depths(spec)
+                    if any(rc.spec_invalid(c) is not None for c in cells):
+                        continue
+                    yield {'spec': spec, 'route': 'builder'}
+                    yield {'spec': spec, 'route': ('tvm', 'plain', 'reused')[(si + m + hv) % 3], 'hist': si + m}
+    # real trees: a chain of ordinary cells with its bottom part pruned, `above` ordinary cells over the pruned branch so that the
+    # virtual depth is exactly 1022 / 1023, then Merkle cells
+    for above in (1, 20):
+        for total in (1022, 1023):
+            chain = [{'k': 'o', 'b': [8, 2, j], 'r': [j - 1] if j else []} for j in range(total - above + 1)]
+            spec = chain + [{'k': 'o', 'b': [2, 1, 0], 'r': []}, {'k': 'p', 'of': len(chain) - 1, 'x': 0}]
+            for shape in (('o',) * above + ('mp',), ('o',) * above + ('muB', 'o', 'mp')):
+                yield {'spec': _grow(spec, len(spec) - 1, len(chain), shape), 'route': 'builder'}
+
+
+def classify_deep(case):
+    cells, md = _max_depths(case['spec'])
+    yield 'deepest-level-depth=' + str(max(md))
+    for c in cells:
+        if c.type in (3, 4):
+            yield f'merkle-over-child-with-level0-depth={max(r.D(0) for r in c.refs)}' if max(r.D(0) for r in c.refs) >= 1021 \
+                else 'merkle-over-shallower-child'
+    yield 'route=' + case['route']
+    yield 'nodes=' + ('<=8' if len(cells) <= 8 else '1000+')
 
 
 def strat_model(tier):
     return st.fixed_dictionaries({'spec': dag.st_exotic_dag(max_nodes=18 if tier == 'quick' else 40),
-                                  'route': st.sampled_from(['builder', 'tvm', 'plain'])})
+                                  'route': st.sampled_from(['builder', 'tvm', 'plain', 'reused', 'reused']),
+                                  'hist': st.integers(0, 20)})
 
 
 def _masks(case):
@@ -368,6 +719,11 @@ def classify(case):
         yield 'kind:' + k
     if 'route' in case:
         yield 'route=' + case['route']
+    if 'mode' in case:
+        yield 'mode=' + case['mode']
+    if case.get('route') == 'reused':
+        for k in range(min(len(case['spec']), len(HISTS))):
+            yield 'builder-history=' + HISTS[(case.get('hist', 0) + k) % len(HISTS)]
 
 
 def nt(case):
@@ -377,7 +733,13 @@ def nt(case):
 
 SUBCHECKS = [
     Sub('pruned-masks-x-parents', check_model, enum=enum_pruned_parents, classify=classify, nontrivial=nt, shards=(16, 16),
-        exhaustive=True, note='every raw pruned mask 1..7 x sibling mask 0..7 x 3 depth patterns x 7 parent shapes x 2 routes'),
+        exhaustive=True, note='every raw pruned mask 1..7 x sibling mask 0..7 x 3 depth patterns x 7 parent shapes x 3 routes '
+                              '(fresh builder, Cell(TvmBitarray), builders ended before with other contents)'),
+    Sub('depth-limit-x-merkle', check_model, enum=enum_depth_limit, classify=classify_deep, shards=(16, 16), exhaustive=True,
+        nontrivial=lambda c: max(_max_depths(c['spec'])[1]) == 1023,
+        note='pruned masks 1..7 x stored depth 1021..1023 at one significant level (or all) x 19 ancestor shapes (ordinary / Merkle '
+             'proof / Merkle update), kept when the reference has every depth <= 1023; + chains of 1022 / 1023 real cells with the '
+             'bottom pruned under Merkle cells; non-trivial = some cell has depth exactly 1023 at some level'),
     Sub('exotic-beside-ordinary-twin-in-one-bag', check_twin_bag, enum=enum_twin_bags, shards=(2, 2), exhaustive=True,
         classify=lambda c: ['kind=' + c['kind']], nontrivial=lambda c: True,
         note='library / Merkle proof / Merkle update / pruned (masks 1..7) cell and the ordinary cell with the same bits and children in one bag'),
